@@ -349,7 +349,7 @@ Proof.
     eapply good_attach; eauto. unfold uid_sig_ok. simpl. rewrite E1, E2. apply verifies_sign.
   - (* add_subkey *) apply upd_good; auto. intros ob Hg. destruct (p_public (o_key ob) || negb (o_lock ob =? 0)) eqn:E; auto.
     apply orb_false_iff in E. destruct E as [Ep _]. simpl.
-    destruct (direct_ok ob && (negb cansign || has_text (o_key ob))) eqn:Eok; [|exact Hg]. simpl.
+    destruct (direct_ok ob) eqn:Eok; [|exact Hg]. simpl.
     apply good_sub_set; auto.
     + simpl.
       intros it Hin. apply key_or_sig_in in Hin. simpl in Hin. destruct Hin as [E|[[]|[_ [e [He E]]]]].
@@ -358,6 +358,7 @@ Proof.
       * subst it. destruct cansign; [|destruct He]. destruct He as [He|[]]. subst e. simpl. unfold emb_ok. simpl.
         rewrite verifies_sign. reflexivity.
     + simpl. apply key_or_sig_spec. reflexivity.
+  - (* add_subkey of a key with identities: refused, nothing changes *) exact Hw.
   - (* revoke subkey *) apply upd_good; auto. intros ob Hg. destruct (find_sub label (p_subs (o_key ob))) as [j|] eqn:F; auto.
     destruct (revoke_ok ob); auto. destruct (find_sub_spec _ _ _ F) as [sk [Hn El]]. rewrite Hn. simpl.
     assert (In sk (p_subs (o_key ob))) as Hsk by (eapply nth_error_In; eauto).
